@@ -658,6 +658,14 @@ func flowOffender(v ssa.Value, isSource func(ssa.Value) bool, allowed func(*ssa.
 		}
 		switch x := v.(type) {
 		case *ssa.Call:
+			// append(prefix, data...) / append(data, suffix...): the data's bytes are
+			// carried over unchanged into the longer list
+			if b, ok := x.Call.Value.(*ssa.Builtin); ok && b.Name() == "append" {
+				for _, a := range x.Call.Args {
+					rec(a, d+1)
+				}
+				return
+			}
 			if allowed != nil && allowed(x) {
 				for _, a := range x.Call.Args {
 					rec(a, d+1)
